@@ -9,14 +9,14 @@ def MTy.WF : MTy → Prop
   | .base t => t.WF
   | .pstr _ => True
 
-/-- a value some lexical string is stored as by the member type -/
-def MStored (m : MTy) (v : Value) : Prop := ∃ hints s, m.store hints s = .ok v
+/-- a value some lexical string is stored as by the member plug-in -/
+def MStored (m : Plug) (v : Value) : Prop := ∃ hints s, m.store hints s = .ok v
 
 /-- a union value whose member index names a member and whose value is one that member stores (text-stored and LYB-loaded values) -/
-def UValid (ms : List MTy) (u : UVal) : Prop := ∃ m, ms[u.idx]? = some m ∧ MStored m u.val
+def UValid (ms : List Plug) (u : UVal) : Prop := ∃ m, ms[u.idx]? = some m ∧ MStored m u.val
 
 /-- a value some lexical string is stored as by the union -/
-def UStored (ms : List MTy) (u : UVal) : Prop := ∃ hints s, storeU ms hints s = .ok u
+def UStored (ms : List Plug) (u : UVal) : Prop := ∃ hints s, storeU ms hints s = .ok u
 
 theorem data_hints_string : (checkHints Generated.LYD_HINT_DATA "string").isSome = true := by decide
 
@@ -46,18 +46,18 @@ theorem storePStr_ok {t : PStrTy} {hints : Nat} {s x : Bytes} (h : storePStr t h
         simp only [hd, hv, if_true]
       · rw [if_neg hv] at h; cases h
 
-theorem mstored_base {t : Ty} {v : Value} (h : MStored (.base t) v) : Stored t v := by
+theorem mstored_base {t : Ty} {v : Value} (h : MStored (MTy.base t).plug v) : Stored t v := by
   obtain ⟨hints, s, h⟩ := h
   refine ⟨hints, s, ?_⟩
-  simp only [MTy.store] at h
+  simp only [MTy.plug, MTy.store] at h
   cases hs : Val.store t hints s with
   | ok x => rw [hs] at h; injection h with h; rw [h]
   | error e => rw [hs] at h; cases h
 
-theorem mstored_pstr {t : PStrTy} {v : Value} (h : MStored (.pstr t) v) :
+theorem mstored_pstr {t : PStrTy} {v : Value} (h : MStored (MTy.pstr t).plug v) :
     ∃ s, v = .str s ∧ ∀ hints', (checkHints hints' "string").isSome = true → storePStr t hints' s = .ok s := by
   obtain ⟨hints, s, h⟩ := h
-  simp only [MTy.store] at h
+  simp only [MTy.plug, MTy.store] at h
   cases hs : storePStr t hints s with
   | error e => rw [hs] at h; cases h
   | ok x =>
@@ -68,7 +68,7 @@ theorem mstored_pstr {t : PStrTy} {v : Value} (h : MStored (.pstr t) v) :
 
 /-! ### the laws of a member type -/
 
-structure MLaws (m : MTy) : Prop where
+structure MLaws (m : Plug) : Prop where
   canon_idem : ∀ v, MStored m v → m.store Generated.LYD_HINT_DATA (m.canon v) = .ok v
   eq_iff_canon : ∀ a b, MStored m a → MStored m b → (m.cmpEq a b = true ↔ m.canon a = m.canon b)
   sort_zero : ∀ a b, MStored m a → MStored m b → (m.sort a b = 0 ↔ m.cmpEq a b = true)
@@ -76,13 +76,13 @@ structure MLaws (m : MTy) : Prop where
   sort_trans : ∀ a b c, MStored m a → MStored m b → MStored m c → m.sort a b ≤ 0 → m.sort b c ≤ 0 → m.sort a c ≤ 0
   lyb_rt : ∀ v, MStored m v → m.unlyb (m.lyb v) = .ok v
 
-theorem mlaws (m : MTy) (hwf : m.WF) : MLaws m := by
+theorem mlaws (m : MTy) (hwf : m.WF) : MLaws m.plug := by
   cases m with
   | base t =>
     have hwf' : t.WF := hwf
     refine ⟨?_, ?_, ?_, ?_, ?_, ?_⟩
     · intro v h
-      simp only [MTy.store, MTy.canon, store_canon hwf' (mstored_base h)]
+      simp only [MTy.plug, MTy.store, MTy.canon, store_canon hwf' (mstored_base h)]
     · intro a b ha hb
       exact cmpEq_iff_canon_eq hwf' (mstored_base ha) (mstored_base hb)
     · intro a b ha hb
@@ -92,38 +92,38 @@ theorem mlaws (m : MTy) (hwf : m.WF) : MLaws m := by
     · intro a b c ha hb hc
       exact (sort_props hwf' (mstored_base ha) (mstored_base hb) (mstored_base hc)).2.2
     · intro v h
-      simp only [MTy.unlyb, MTy.lyb, unlyb_lyb hwf' (mstored_base h)]
+      simp only [MTy.plug, MTy.unlyb, MTy.lyb, unlyb_lyb hwf' (mstored_base h)]
   | pstr t =>
     refine ⟨?_, ?_, ?_, ?_, ?_, ?_⟩
     · intro v h
       obtain ⟨s, rfl, hall⟩ := mstored_pstr h
-      simp only [MTy.store, MTy.canon, hall _ data_hints_string, Except.map]
+      simp only [MTy.plug, MTy.store, MTy.canon, hall _ data_hints_string, Except.map]
     · intro a b ha hb
       obtain ⟨x, rfl, _⟩ := mstored_pstr ha
       obtain ⟨y, rfl, _⟩ := mstored_pstr hb
-      simp only [MTy.cmpEq, MTy.canon, beq_iff_eq]
+      simp only [MTy.plug, MTy.cmpEq, MTy.canon, beq_iff_eq]
     · intro a b ha hb
       obtain ⟨x, rfl, _⟩ := mstored_pstr ha
       obtain ⟨y, rfl, _⟩ := mstored_pstr hb
-      simp only [MTy.cmpEq, MTy.sort, beq_iff_eq]
+      simp only [MTy.plug, MTy.cmpEq, MTy.sort, beq_iff_eq]
       exact strcmp_zero x y
     · intro a b ha hb
       obtain ⟨x, rfl, _⟩ := mstored_pstr ha
       obtain ⟨y, rfl, _⟩ := mstored_pstr hb
-      simp only [MTy.sort]
+      simp only [MTy.plug, MTy.sort]
       exact strcmp_antisymm x y
     · intro a b c ha hb hc
       obtain ⟨x, rfl, _⟩ := mstored_pstr ha
       obtain ⟨y, rfl, _⟩ := mstored_pstr hb
       obtain ⟨z, rfl, _⟩ := mstored_pstr hc
-      simp only [MTy.sort]
+      simp only [MTy.plug, MTy.sort]
       exact strcmp_trans x y z
     · intro v h
       obtain ⟨s, rfl, hall⟩ := mstored_pstr h
-      simp only [MTy.unlyb, MTy.lyb, hall _ data_hints_string, Except.map]
+      simp only [MTy.plug, MTy.unlyb, MTy.lyb, hall _ data_hints_string, Except.map]
 
 /-- equality as the compare callback decides it is equality of the stored values -/
-theorem MLaws.eq_iff {m : MTy} (L : MLaws m) {a b : Value} (ha : MStored m a) (hb : MStored m b) : m.cmpEq a b = true ↔ a = b := by
+theorem MLaws.eq_iff {m : Plug} (L : MLaws m) {a b : Value} (ha : MStored m a) (hb : MStored m b) : m.cmpEq a b = true ↔ a = b := by
   rw [L.eq_iff_canon a b ha hb]
   constructor
   · intro h
@@ -137,10 +137,10 @@ theorem MLaws.eq_iff {m : MTy} (L : MLaws m) {a b : Value} (ha : MStored m a) (h
 /-! ### `union_find_type` -/
 
 /-- every member before position `k` refuses the value -/
-def AllReject (ms : List MTy) (k hints : Nat) (s : Bytes) : Prop :=
-  ∀ j, j < k → ∀ m, ms[j]? = some m → ∃ e, m.store hints s = .error e
+def AllReject (ms : List Plug) (k hints : Nat) (s : Bytes) : Prop :=
+  ∀ j, j < k → ∀ m : Plug, ms[j]? = some m → ∃ e, m.store hints s = .error e
 
-theorem findType_some_iff : ∀ (ms : List MTy) (i hints : Nat) (s : Bytes) (u : UVal),
+theorem findType_some_iff : ∀ (ms : List Plug) (i hints : Nat) (s : Bytes) (u : UVal),
     findType ms i hints s = some u ↔
       ∃ k m, u.idx = i + k ∧ ms[k]? = some m ∧ m.store hints s = .ok u.val ∧ AllReject ms k hints s
   | [], i, hints, s, u => by
@@ -200,7 +200,7 @@ theorem findType_some_iff : ∀ (ms : List MTy) (i hints : Nat) (s : Bytes) (u :
           intro j hj mj hmj
           exact hrej (j + 1) (by omega) mj (by simpa using hmj)
 
-theorem findType_none_iff : ∀ (ms : List MTy) (i hints : Nat) (s : Bytes),
+theorem findType_none_iff : ∀ (ms : List Plug) (i hints : Nat) (s : Bytes),
     findType ms i hints s = none ↔ ∀ m ∈ ms, ∃ e, m.store hints s = .error e
   | [], i, hints, s => by simp [findType]
   | m :: r, i, hints, s => by
@@ -218,7 +218,7 @@ theorem findType_none_iff : ∀ (ms : List MTy) (i hints : Nat) (s : Bytes),
       · intro h; exact ⟨⟨e, hm⟩, h⟩
       · intro h; exact h.2
 
-theorem storeU_ok_iff (ms : List MTy) (hints : Nat) (s : Bytes) (u : UVal) :
+theorem storeU_ok_iff (ms : List Plug) (hints : Nat) (s : Bytes) (u : UVal) :
     storeU ms hints s = .ok u ↔ ∃ m, ms[u.idx]? = some m ∧ m.store hints s = .ok u.val ∧ AllReject ms u.idx hints s := by
   unfold storeU
   cases hf : findType ms 0 hints s with
@@ -247,7 +247,7 @@ theorem storeU_ok_iff (ms : List MTy) (hints : Nat) (s : Bytes) (u : UVal) :
       injection h2 with h2
       rw [h2]
 
-theorem storeU_error_iff (ms : List MTy) (hints : Nat) (s : Bytes) (e : MErr) :
+theorem storeU_error_iff (ms : List Plug) (hints : Nat) (s : Bytes) (e : MErr) :
     storeU ms hints s = .error e ↔ e = .NoMember ∧ ∀ m ∈ ms, ∃ e', m.store hints s = .error e' := by
   unfold storeU
   cases hf : findType ms 0 hints s with
@@ -264,14 +264,14 @@ theorem storeU_error_iff (ms : List MTy) (hints : Nat) (s : Bytes) (e : MErr) :
       have := (findType_none_iff ms 0 hints s).mpr h
       rw [hf] at this; cases this
 
-theorem ustored_valid {ms : List MTy} {u : UVal} (h : UStored ms u) : UValid ms u := by
+theorem ustored_valid {ms : List Plug} {u : UVal} (h : UStored ms u) : UValid ms u := by
   obtain ⟨hints, s, h⟩ := h
   obtain ⟨m, hget, hst, _⟩ := (storeU_ok_iff ms hints s u).mp h
   exact ⟨m, hget, hints, s, hst⟩
 
 /-! ### compare / sort -/
 
-theorem cmpEqU_iff {ms : List MTy} (hwf : ∀ m ∈ ms, m.WF) {a b : UVal} (ha : UValid ms a) (hb : UValid ms b) :
+theorem cmpEqU_iff {ms : List Plug} (hwf : ∀ m ∈ ms, MLaws m) {a b : UVal} (ha : UValid ms a) (hb : UValid ms b) :
     cmpEqU ms a b = true ↔ a = b := by
   obtain ⟨ma, hga, hsa⟩ := ha
   obtain ⟨mb, hgb, hsb⟩ := hb
@@ -284,7 +284,7 @@ theorem cmpEqU_iff {ms : List MTy} (hwf : ∀ m ∈ ms, m.WF) {a b : UVal} (ha :
     rw [hga] at hgb
     injection hgb with hgb
     subst hgb
-    have L := mlaws ma (hwf ma (List.mem_of_getElem? hga))
+    have L := hwf ma (List.mem_of_getElem? hga)
     rw [L.eq_iff hsa hsb]
     constructor
     · intro h; cases a; cases b; simp only at hi h; subst hi; subst h; rfl
@@ -294,7 +294,7 @@ theorem cmpEqU_iff {ms : List MTy} (hwf : ∀ m ∈ ms, m.WF) {a b : UVal} (ha :
     simp only [if_true, Bool.false_eq_true, false_iff]
     intro h; exact hi (by rw [h])
 
-theorem sortU_zero_iff {ms : List MTy} (hwf : ∀ m ∈ ms, m.WF) {a b : UVal} (ha : UValid ms a) (hb : UValid ms b) :
+theorem sortU_zero_iff {ms : List Plug} (hwf : ∀ m ∈ ms, MLaws m) {a b : UVal} (ha : UValid ms a) (hb : UValid ms b) :
     sortU ms a b = 0 ↔ cmpEqU ms a b = true := by
   obtain ⟨ma, hga, hsa⟩ := ha
   obtain ⟨mb, hgb, hsb⟩ := hb
@@ -308,14 +308,14 @@ theorem sortU_zero_iff {ms : List MTy} (hwf : ∀ m ∈ ms, m.WF) {a b : UVal} (
     rw [hga] at hgb
     injection hgb with hgb
     subst hgb
-    exact (mlaws ma (hwf ma (List.mem_of_getElem? hga))).sort_zero _ _ hsa hsb
+    exact (hwf ma (List.mem_of_getElem? hga)).sort_zero _ _ hsa hsb
   · have hne : (a.idx != b.idx) = true := by simp [hi]
     have heq : (a.idx == b.idx) = false := by simp [hi]
     rw [hne, heq]
     simp only [Bool.false_eq_true, if_false, if_true, iff_false]
     split <;> omega
 
-theorem sortU_antisymm {ms : List MTy} (hwf : ∀ m ∈ ms, m.WF) {a b : UVal} (ha : UValid ms a) (hb : UValid ms b) :
+theorem sortU_antisymm {ms : List Plug} (hwf : ∀ m ∈ ms, MLaws m) {a b : UVal} (ha : UValid ms a) (hb : UValid ms b) :
     sortU ms a b = -sortU ms b a := by
   obtain ⟨ma, hga, hsa⟩ := ha
   obtain ⟨mb, hgb, hsb⟩ := hb
@@ -329,14 +329,14 @@ theorem sortU_antisymm {ms : List MTy} (hwf : ∀ m ∈ ms, m.WF) {a b : UVal} (
     rw [hga] at hgb
     injection hgb with hgb
     subst hgb
-    exact (mlaws ma (hwf ma (List.mem_of_getElem? hga))).sort_antisymm _ _ hsa hsb
+    exact (hwf ma (List.mem_of_getElem? hga)).sort_antisymm _ _ hsa hsb
   · have heq : (a.idx == b.idx) = false := by simp [hi]
     have heq' : (b.idx == a.idx) = false := by simp; omega
     rw [heq, heq']
     simp only [Bool.false_eq_true, if_false]
     split <;> split <;> omega
 
-theorem sortU_le_iff {ms : List MTy} {a b : UVal} :
+theorem sortU_le_iff {ms : List Plug} {a b : UVal} :
     sortU ms a b ≤ 0 ↔ (a.idx = b.idx ∧ (match ms[a.idx]? with | some m => m.sort a.val b.val | none => 0) ≤ 0) ∨ b.idx < a.idx := by
   unfold sortU
   by_cases hi : a.idx = b.idx
@@ -359,7 +359,7 @@ theorem sortU_le_iff {ms : List MTy} {a b : UVal} :
       · exact absurd h hi
       · split <;> omega
 
-theorem sortU_trans {ms : List MTy} (hwf : ∀ m ∈ ms, m.WF) {a b c : UVal} (ha : UValid ms a) (hb : UValid ms b) (hc : UValid ms c)
+theorem sortU_trans {ms : List Plug} (hwf : ∀ m ∈ ms, MLaws m) {a b c : UVal} (ha : UValid ms a) (hb : UValid ms b) (hc : UValid ms c)
     (h1 : sortU ms a b ≤ 0) (h2 : sortU ms b c ≤ 0) : sortU ms a c ≤ 0 := by
   rw [sortU_le_iff] at h1 h2 ⊢
   obtain ⟨ma, hga, hsa⟩ := ha
@@ -375,7 +375,7 @@ theorem sortU_trans {ms : List MTy} (hwf : ∀ m ∈ ms, m.WF) {a b c : UVal} (h
       have e1 : mb = ma := by rw [← h1i, hga] at hgb; injection hgb with h; exact h.symm
       have e2 : mc = ma := by rw [← h2i, ← h1i, hga] at hgc; injection hgc with h; exact h.symm
       subst e1; subst e2
-      exact (mlaws mc (hwf mc (List.mem_of_getElem? hga))).sort_trans _ _ _ hsa hsb hsc h1s h2s
+      exact (hwf mc (List.mem_of_getElem? hga)).sort_trans _ _ _ hsa hsb hsc h1s h2s
     · right; omega
   · rcases h2 with ⟨h2i, _⟩ | h2
     · right; omega
@@ -385,7 +385,7 @@ theorem sortU_trans {ms : List MTy} (hwf : ∀ m ∈ ms, m.WF) {a b c : UVal} (h
 
 theorem idxSize_eq : Generated.unionIdxSize = 4 := by decide
 
-theorem unlybU_lybU {ms : List MTy} (hwf : ∀ m ∈ ms, m.WF) (hlen : ms.length ≤ 2 ^ 32) {u : UVal} (hu : UValid ms u) :
+theorem unlybU_lybU {ms : List Plug} (hwf : ∀ m ∈ ms, MLaws m) (hlen : ms.length ≤ 2 ^ 32) {u : UVal} (hu : UValid ms u) :
     unlybU ms (lybU ms u) = .ok u := by
   obtain ⟨m, hget, hst⟩ := hu
   have hlt : u.idx < ms.length := by
@@ -406,6 +406,6 @@ theorem unlybU_lybU {ms : List MTy} (hwf : ∀ m ∈ ms, m.WF) (hlen : ms.length
     rw [List.drop_append_of_le_length (by omega), List.drop_of_length_le (by omega), List.nil_append]
   rw [h2, h3, ofLe_leBytes 4 u.idx, Nat.mod_eq_of_lt (by omega), hget]
   simp only
-  rw [(mlaws m (hwf m (List.mem_of_getElem? hget))).lyb_rt _ hst]
+  rw [(hwf m (List.mem_of_getElem? hget)).lyb_rt _ hst]
 
 end LyModel.Val
